@@ -5,7 +5,7 @@
 package join
 
 /*@ theory joins
-;; theory wiring
+;; theory wiring lists
 @*/
 
 /*@ iface types/daemonset.CacheController.Cache
@@ -326,7 +326,7 @@ package join
   props C09 C20
   theory joins
   requires (and (not (= {srcController} vnil)) (not (= {dst} vnil)) (not (= {filterFn} vnil)) (not (= {log} vnil)))
-  ghost lastObjs : (Slice V) := {objs}
+  ghost lastObjs : (Slice V) := seq-empty
   ghost listOK : Bool := false
   ghost lastFilter : V := vnil
   at call(Cache) assert [reads-the-source-cache] (= $recv {srcController})
@@ -339,6 +339,7 @@ package join
   ghost refiltered : Bool := false
   at call(Refilter) set refiltered := true
   exit [refilters-unless-the-source-cache-could-not-be-listed] (or refiltered (not listOK))
+  at go() assert [opt:callbacks-refilter-serially-on-the-monitor-goroutine] false
 @*/
 /*@ func join.ServicePodsWith$2
   props C09 C20 C08
@@ -352,6 +353,7 @@ package join
   ghost refiltered : Bool := false
   at call(Refilter) set refiltered := true
   exit [always-refilters-so-the-join-becomes-ready-even-for-an-empty-source] refiltered
+  at go() assert [opt:callbacks-refilter-serially-on-the-monitor-goroutine] false
 @*/
 /*@ func join.ServicePodsWith$3
   props C09 C11 C12 C20
@@ -399,7 +401,7 @@ package join
   props C09 C20
   theory joins
   requires (and (not (= {srcController} vnil)) (not (= {dst} vnil)) (not (= {filterFn} vnil)) (not (= {log} vnil)))
-  ghost lastObjs : (Slice V) := {objs}
+  ghost lastObjs : (Slice V) := seq-empty
   ghost listOK : Bool := false
   ghost lastFilter : V := vnil
   at call(Cache) assert [reads-the-source-cache] (= $recv {srcController})
@@ -412,6 +414,7 @@ package join
   ghost refiltered : Bool := false
   at call(Refilter) set refiltered := true
   exit [refilters-unless-the-source-cache-could-not-be-listed] (or refiltered (not listOK))
+  at go() assert [opt:callbacks-refilter-serially-on-the-monitor-goroutine] false
 @*/
 /*@ func join.RCPodsWith$2
   props C09 C20 C08
@@ -425,6 +428,7 @@ package join
   ghost refiltered : Bool := false
   at call(Refilter) set refiltered := true
   exit [always-refilters-so-the-join-becomes-ready-even-for-an-empty-source] refiltered
+  at go() assert [opt:callbacks-refilter-serially-on-the-monitor-goroutine] false
 @*/
 /*@ func join.RCPodsWith$3
   props C09 C11 C12 C20
@@ -472,7 +476,7 @@ package join
   props C09 C20
   theory joins
   requires (and (not (= {srcController} vnil)) (not (= {dst} vnil)) (not (= {filterFn} vnil)) (not (= {log} vnil)))
-  ghost lastObjs : (Slice V) := {objs}
+  ghost lastObjs : (Slice V) := seq-empty
   ghost listOK : Bool := false
   ghost lastFilter : V := vnil
   at call(Cache) assert [reads-the-source-cache] (= $recv {srcController})
@@ -485,6 +489,7 @@ package join
   ghost refiltered : Bool := false
   at call(Refilter) set refiltered := true
   exit [refilters-unless-the-source-cache-could-not-be-listed] (or refiltered (not listOK))
+  at go() assert [opt:callbacks-refilter-serially-on-the-monitor-goroutine] false
 @*/
 /*@ func join.RSPodsWith$2
   props C09 C20 C08
@@ -498,6 +503,7 @@ package join
   ghost refiltered : Bool := false
   at call(Refilter) set refiltered := true
   exit [always-refilters-so-the-join-becomes-ready-even-for-an-empty-source] refiltered
+  at go() assert [opt:callbacks-refilter-serially-on-the-monitor-goroutine] false
 @*/
 /*@ func join.RSPodsWith$3
   props C09 C11 C12 C20
@@ -545,7 +551,7 @@ package join
   props C09 C20
   theory joins
   requires (and (not (= {srcController} vnil)) (not (= {dst} vnil)) (not (= {filterFn} vnil)) (not (= {log} vnil)))
-  ghost lastObjs : (Slice V) := {objs}
+  ghost lastObjs : (Slice V) := seq-empty
   ghost listOK : Bool := false
   ghost lastFilter : V := vnil
   at call(Cache) assert [reads-the-source-cache] (= $recv {srcController})
@@ -558,6 +564,7 @@ package join
   ghost refiltered : Bool := false
   at call(Refilter) set refiltered := true
   exit [refilters-unless-the-source-cache-could-not-be-listed] (or refiltered (not listOK))
+  at go() assert [opt:callbacks-refilter-serially-on-the-monitor-goroutine] false
 @*/
 /*@ func join.DeploymentPodsWith$2
   props C09 C20 C08
@@ -571,6 +578,7 @@ package join
   ghost refiltered : Bool := false
   at call(Refilter) set refiltered := true
   exit [always-refilters-so-the-join-becomes-ready-even-for-an-empty-source] refiltered
+  at go() assert [opt:callbacks-refilter-serially-on-the-monitor-goroutine] false
 @*/
 /*@ func join.DeploymentPodsWith$3
   props C09 C11 C12 C20
@@ -618,7 +626,7 @@ package join
   props C09 C20
   theory joins
   requires (and (not (= {srcController} vnil)) (not (= {dst} vnil)) (not (= {filterFn} vnil)) (not (= {log} vnil)))
-  ghost lastObjs : (Slice V) := {objs}
+  ghost lastObjs : (Slice V) := seq-empty
   ghost listOK : Bool := false
   ghost lastFilter : V := vnil
   at call(Cache) assert [reads-the-source-cache] (= $recv {srcController})
@@ -631,6 +639,7 @@ package join
   ghost refiltered : Bool := false
   at call(Refilter) set refiltered := true
   exit [refilters-unless-the-source-cache-could-not-be-listed] (or refiltered (not listOK))
+  at go() assert [opt:callbacks-refilter-serially-on-the-monitor-goroutine] false
 @*/
 /*@ func join.DaemonSetPodsWith$2
   props C09 C20 C08
@@ -644,6 +653,7 @@ package join
   ghost refiltered : Bool := false
   at call(Refilter) set refiltered := true
   exit [always-refilters-so-the-join-becomes-ready-even-for-an-empty-source] refiltered
+  at go() assert [opt:callbacks-refilter-serially-on-the-monitor-goroutine] false
 @*/
 /*@ func join.DaemonSetPodsWith$3
   props C09 C11 C12 C20
@@ -691,7 +701,7 @@ package join
   props C09 C20
   theory joins
   requires (and (not (= {srcController} vnil)) (not (= {dst} vnil)) (not (= {filterFn} vnil)) (not (= {log} vnil)))
-  ghost lastObjs : (Slice V) := {objs}
+  ghost lastObjs : (Slice V) := seq-empty
   ghost listOK : Bool := false
   ghost lastFilter : V := vnil
   at call(Cache) assert [reads-the-source-cache] (= $recv {srcController})
@@ -704,6 +714,7 @@ package join
   ghost refiltered : Bool := false
   at call(Refilter) set refiltered := true
   exit [refilters-unless-the-source-cache-could-not-be-listed] (or refiltered (not listOK))
+  at go() assert [opt:callbacks-refilter-serially-on-the-monitor-goroutine] false
 @*/
 /*@ func join.StatefulSetPodsWith$2
   props C09 C20 C08
@@ -717,6 +728,7 @@ package join
   ghost refiltered : Bool := false
   at call(Refilter) set refiltered := true
   exit [always-refilters-so-the-join-becomes-ready-even-for-an-empty-source] refiltered
+  at go() assert [opt:callbacks-refilter-serially-on-the-monitor-goroutine] false
 @*/
 /*@ func join.StatefulSetPodsWith$3
   props C09 C11 C12 C20
@@ -764,7 +776,7 @@ package join
   props C09 C20
   theory joins
   requires (and (not (= {srcController} vnil)) (not (= {dst} vnil)) (not (= {filterFn} vnil)) (not (= {log} vnil)))
-  ghost lastObjs : (Slice V) := {objs}
+  ghost lastObjs : (Slice V) := seq-empty
   ghost listOK : Bool := false
   ghost lastFilter : V := vnil
   at call(Cache) assert [reads-the-source-cache] (= $recv {srcController})
@@ -777,6 +789,7 @@ package join
   ghost refiltered : Bool := false
   at call(Refilter) set refiltered := true
   exit [refilters-unless-the-source-cache-could-not-be-listed] (or refiltered (not listOK))
+  at go() assert [opt:callbacks-refilter-serially-on-the-monitor-goroutine] false
 @*/
 /*@ func join.JobPodsWith$2
   props C09 C20 C08
@@ -790,6 +803,7 @@ package join
   ghost refiltered : Bool := false
   at call(Refilter) set refiltered := true
   exit [always-refilters-so-the-join-becomes-ready-even-for-an-empty-source] refiltered
+  at go() assert [opt:callbacks-refilter-serially-on-the-monitor-goroutine] false
 @*/
 /*@ func join.JobPodsWith$3
   props C09 C11 C12 C20
@@ -837,7 +851,7 @@ package join
   props C09 C20
   theory joins
   requires (and (not (= {srcController} vnil)) (not (= {dst} vnil)) (not (= {filterFn} vnil)) (not (= {log} vnil)))
-  ghost lastObjs : (Slice V) := {objs}
+  ghost lastObjs : (Slice V) := seq-empty
   ghost listOK : Bool := false
   ghost lastFilter : V := vnil
   at call(Cache) assert [reads-the-source-cache] (= $recv {srcController})
@@ -850,6 +864,7 @@ package join
   ghost refiltered : Bool := false
   at call(Refilter) set refiltered := true
   exit [refilters-unless-the-source-cache-could-not-be-listed] (or refiltered (not listOK))
+  at go() assert [opt:callbacks-refilter-serially-on-the-monitor-goroutine] false
 @*/
 /*@ func join.IngressServicesWith$2
   props C09 C20 C08
@@ -863,6 +878,7 @@ package join
   ghost refiltered : Bool := false
   at call(Refilter) set refiltered := true
   exit [always-refilters-so-the-join-becomes-ready-even-for-an-empty-source] refiltered
+  at go() assert [opt:callbacks-refilter-serially-on-the-monitor-goroutine] false
 @*/
 /*@ func join.IngressServicesWith$3
   props C09 C11 C12 C20
